@@ -193,10 +193,22 @@ func ruleEANAssembly(c *Ctx) {
 			full := call.Common().Args[0]
 			n.Bind[full] = "full"
 			from := fn.Blocks[0]
-			if p, ok := full.(*ssa.Phi); ok {
-				from = p.Block()
+			if p, ok := full.(ssa.Instruction); ok && p.Block() != nil {
+				from = p.Block() // where the completed code is defined
 			}
-			c.expectCond(R4, "ean.EncodeWithColor/"+v.enc+"-iff", call.Pos(), n.ReachCond(fn, from, call.Block()), v.want)
+			// the selection is judged on the normal path: errors reported by helpers have been returned
+			assume := cTrue
+			ne := 0
+			eachInstr(fn, func(b *ssa.BasicBlock, ins ssa.Instruction) {
+				if ex, ok := ins.(*ssa.Extract); ok && isErrorType(ex.Type()) {
+					if _, isCall := ex.Tuple.(*ssa.Call); isCall {
+						ne++
+						n.Bind[ex] = fmt.Sprintf("err%d", ne)
+						assume = cAnd(assume, &Cond{Kind: CBool, Name: fmt.Sprintf("Eq(err%d,nil)", ne)})
+					}
+				}
+			})
+			c.expectCondC(R4, "ean.EncodeWithColor/"+v.enc+"-iff", call.Pos(), cAnd(assume, n.ReachCond(fn, from, call.Block())), cAnd(assume, MustRefCond(v.want)))
 			// the constructor fed by this call
 			found := false
 			eachInstr(fn, func(b *ssa.BasicBlock, ins ssa.Instruction) {
@@ -222,8 +234,9 @@ func ruleEANAssembly(c *Ctx) {
 // projectOK: reach condition with the loop's membership flag named "ok".
 func projectOK(n *Normer, fn *ssa.Function, from, target *ssa.BasicBlock) *Cond {
 	// name every comma-ok lookup flag "ok"
-	eachInstr(fn, func(b *ssa.BasicBlock, ins ssa.Instruction) {
-		if ex, okx := ins.(*ssa.Extract); okx && ex.Index == 1 {
+	// (also in the unexported helpers the function delegates to)
+	n.P.deepEach(fn, 2, func(s DeepSite) {
+		if ex, okx := s.Ins.(*ssa.Extract); okx && ex.Index == 1 {
 			if lk, isLk := ex.Tuple.(*ssa.Lookup); isLk && lk.CommaOk {
 				n.Bind[ex] = "ok"
 			}
@@ -244,8 +257,9 @@ func ruleCodabarValidation(c *Ctx) {
 	n := NewNormer(c.P)
 	n.BindParams(fn, "content", "color")
 	var compile, repl *ssa.Call
-	eachInstr(fn, func(b *ssa.BasicBlock, ins ssa.Instruction) {
-		call, ok := ins.(*ssa.Call)
+	var replSite DeepSite
+	c.P.deepEach(fn, 2, func(s DeepSite) {
+		call, ok := s.Ins.(*ssa.Call)
 		if !ok {
 			return
 		}
@@ -253,7 +267,7 @@ func ruleCodabarValidation(c *Ctx) {
 		case "regexp.Compile", "regexp.MustCompile":
 			compile = call
 		case "(*regexp.Regexp).ReplaceAllString":
-			repl = call
+			repl, replSite = call, s
 		}
 	})
 	if compile == nil {
@@ -287,7 +301,7 @@ func ruleCodabarValidation(c *Ctx) {
 	if k, ok := a[2].(*ssa.Const); ok && k.Value != nil {
 		rs = constant.StringVal(k.Value)
 	}
-	c.Check(R, "codabar.EncodeWithColor/whole-match-args", repl.Pos(), recvOK && a[1] == ssa.Value(fn.Params[0]) && rs == "!", "pattern.ReplaceAllString(content, \"!\")", fmt.Sprintf("recv=%v subject=%s repl=%q", recvOK, n.Norm(a[1]), rs))
+	c.Check(R, "codabar.EncodeWithColor/whole-match-args", repl.Pos(), recvOK && n.NormAt(replSite, a[1]).String() == "content" && rs == "!", "pattern.ReplaceAllString(content, \"!\")", fmt.Sprintf("recv=%v subject=%s repl=%q", recvOK, n.NormAt(replSite, a[1]), rs))
 	n.Bind[repl] = "repl"
 	rej := cFalse
 	for _, ret := range returnsOf(fn) {
